@@ -26,6 +26,8 @@ RULE = ('case = (recipe stack of 1..3 views, argument variant, 1..2 aliasing '
         'delivered so far are re-compared. Non-trivial: the solo reference '
         'did not raise and at least one data row was delivered. Distinct: by '
         'digest of the whole case.')
+STATES = ('recipe stack x final consumer x multiset of iterator position '
+          'buckets, sampled after every step')
 COMPONENTS = {
     'real': ['petl views and consumers (lookup, columns, look, tocsv, nrows)'],
     'stub': ['SimTable in alias mode (yields the stored list objects)',
@@ -181,7 +183,11 @@ def run_case(case):
             sch = Sched(views, expected, log=log, items=items,
                         keep_objs=True)
 
+            states = set()
+
             def after(s, op):
+                states.add('%s:%s:%s' % (label, case.get('consumer'),
+                                         s.position_state()))
                 check('after step %r' % (op,))
                 for t in list(s.tasks.values()) + done_tasks:
                     for i, obj in enumerate(t.objs):
@@ -238,7 +244,8 @@ def run_case(case):
     probes['consumer:' + case.get('consumer', 'none')] = 1
     return outcome('ok', digest=log.hexdigest(), steps=nsteps,
                    nontrivial=delivered > 1 and len(expected[0]) >= 2,
-                   probes=probes, extra={'group': group})
+                   probes=probes, states=sorted(states),
+                   extra={'group': group})
 
 
 def warmup():
